@@ -320,7 +320,7 @@ E2E_STYLES = ['unsrt', 'plain', 'alpha', 'unsrtalpha']
 def e2e_norm(db, roles=False):
     """the end-to-end streams recover values from rendered text, so the value of field f of object i is
     the token <F><i> and its key is k<i>, whatever the (possibly shrunk) spec says; only title/year/note/crossref
-    are kept (roles=True: only crossref and the role author, whose single person is A<i>); one entry per key"""
+    are kept (roles=True: only crossref and the role author, whose persons are A<i> and, for odd i, B<i>); one entry per key"""
     ndb, _ = norm_spec(db)
     out, seen = [], set()
     for k, e in ndb:
@@ -334,7 +334,7 @@ def e2e_norm(db, roles=False):
                 fs.append([norm(fl), norm('%s%d' % (fl[0].upper(), e[0]))])
             elif fl == 'crossref':
                 fs.append([norm(fl), [c for c in v if (48 <= c < 58 or 65 <= c < 91 or 97 <= c < 123)]])
-        ps = [[norm('author'), [norm('A%d' % e[0])]]] if roles and any(S(r).lower() == 'author' for r, _ in e[2]) else []
+        ps = [[norm('author'), [norm('A%d' % e[0])] + ([norm('B%d' % e[0])] if e[0] % 2 else [])]] if roles and any(S(r).lower() == 'author' for r, _ in e[2]) else []     # odd objects have two authors
         out.append([norm('k%d' % e[0]), [e[0], fs, ps]])       # the key of object i is k<i>
     return out
 
@@ -396,6 +396,9 @@ def run_e2e(bib, cits, minx, style, bst_fields, letters, id_letter):
             vals = []
             for letter in letters:
                 m = re.findall(r'\b%s\d+\b' % letter, line)
+                if len(letter) > 1:      # a list of persons: the tokens in order, joined like a field
+                    vals.append([norm(' and '.join(m))] if m else [])
+                    continue
                 assert len(m) <= 1, line
                 vals.append([norm(m[0])] if m else [])
             obs.append([norm('k' + who[0][1:]), vals])
@@ -437,7 +440,7 @@ def impl_e2e_roles(a):
     """end to end from .bib text, the person role author: BST sees the field author (inherited through crossref),
     the stock Python styles print it through names('author'); entry identified by its own title T<i>"""
     ndb = e2e_norm(a[0], roles=True)
-    return run_e2e(bib_text(ndb, roles=True), [S(c) for c in a[1]], a[2], _style(a, 3), ['author'], 'A', 'T')
+    return run_e2e(bib_text(ndb, roles=True), [S(c) for c in a[1]], a[2], _style(a, 3), ['author'], ['[AB]'], 'T')
 
 def impl_read_filtered(a):
     """Parser(wanted_entries=citations).parse_string(bib): which entries are in the database, under which key"""
